@@ -23,6 +23,10 @@ func main() {
 	switch os.Args[1] {
 	case "bufpool":
 		bufpoolMain(a)
+	case "topics-seq":
+		topicsSeq(a)
+	case "topics-conc":
+		topicsConc(a)
 	default:
 		hx.Die("unknown mode %s", os.Args[1])
 	}
